@@ -252,20 +252,29 @@ theorem C02_selection_count (cfg : Config) (st : State) (ρ : Env) (hρ : Sat ρ
 
 /-! ### (e) work amount -/
 
-/-- **C02 (e).** When a task has a work amount and at least one assigned worker, the sum over
-    its workers of productivity × busy time reaches the amount. -/
+/-- **C02 (e).** When a (scheduled) task has a work amount and at least one assigned worker, the sum
+    over its workers of productivity × busy time reaches the amount. -/
 theorem C02_work_amount (cfg : Config) (st : State) (ρ : Env) (hρ : Sat ρ (initFmls cfg st)) :
-    ∀ t ∈ st.tasks, 0 < t.work → workTerms st t ≠ [] → t.work ≤ Term.evalSum ρ (workTerms st t) := by
-  intro t ht hw hne
-  have hmem : Fml.ge (.sum (workTerms st t)) (numT t.work) ∈ workAmount st t := by
-    unfold workAmount
-    have : (workTerms st t).isEmpty = false := by
-      cases h : workTerms st t with
-      | nil => exact absurd h hne
-      | cons _ _ => rfl
-    simp [hw, this]
-  have := hρ _ (mem_init_work (cfg := cfg) ht hmem)
-  simpa [Fml.eval, Term.eval, numT] using this
+    ∀ t ∈ st.tasks, 0 < t.work → workTerms st t ≠ [] → Scheduled ρ t → t.work ≤ Term.evalSum ρ (workTerms st t) := by
+  intro t ht hw hne hs
+  have hemp : (workTerms st t).isEmpty = false := by
+    cases h : workTerms st t with
+    | nil => exact absurd h hne
+    | cons _ _ => rfl
+  by_cases ho : t.optional = true
+  · have hmem : Fml.imp (.bvar (.sched t.name)) (Fml.ge (.sum (workTerms st t)) (numT t.work)) ∈ workAmount st t := by
+      unfold workAmount; simp [hw, hemp, ho]
+    have := hρ _ (mem_init_work (cfg := cfg) ht hmem)
+    have hsb : ρ.b (.sched t.name) = true := by
+      rcases hs with h | h
+      · simp [ho] at h
+      · exact h
+    simp only [Fml.eval, hsb, true_implies] at this
+    simpa [Term.eval, numT] using this
+  · have hmem : Fml.ge (.sum (workTerms st t)) (numT t.work) ∈ workAmount st t := by
+      unfold workAmount; simp [hw, hemp, ho]
+    have := hρ _ (mem_init_work (cfg := cfg) ht hmem)
+    simpa [Fml.eval, Term.eval, numT] using this
 
 /-- one term of the work sum evaluates to productivity × (busy end − busy start) -/
 theorem workTerm_eval (ρ : Env) (p : Int) (w t : String) (m : Bool) :
